@@ -496,3 +496,85 @@ func H_C04_orgroup() {
 	vAssert(vSameIDs(st0, vMetaState(idx)), "search-leaves-index-state-unchanged")
 	vCover("ran")
 }
+
+func init() { vHarnesses["H_C04_ctors"] = H_C04_ctors }
+
+// every exported filter constructor and alias, and the query builder's Where / And / Or / Build, judged by what the
+// constructor's NAME promises (the oracle never looks at the Filter struct the constructor produced)
+func H_C04_ctors() {
+	docs := []*vDoc{
+		{id: 5, hasS: true, s: "a", hasI: true, i: vI64("i0"), hasB: true, b: true},
+		{id: 3, hasS: true, s: "b", hasI: true, i: vI64("i1")},
+		{id: 9, hasS: true, s: "a", hasB: true, b: false},
+	}
+	idx := vMetaIndex(docs)
+	c, c2 := vI64("c"), vI64("c2")
+	type ctor struct {
+		name string
+		f    Filter
+		sem  func(d *vDoc) bool
+	}
+	sIs := func(vals ...string) func(d *vDoc) bool {
+		return func(d *vDoc) bool {
+			for _, v := range vals {
+				if d.hasS && d.s == v {
+					return true
+				}
+			}
+			return false
+		}
+	}
+	neg := func(p func(d *vDoc) bool) func(d *vDoc) bool { return func(d *vDoc) bool { return !p(d) } }
+	num := func(p func(v int64) bool) func(d *vDoc) bool {
+		return func(d *vDoc) bool {
+			if !d.hasI {
+				return false
+			}
+			return p(d.i)
+		}
+	}
+	menu := []ctor{
+		{"Eq", Eq("i", c), num(func(v int64) bool { return v == c })},
+		{"Ne", Ne("i", c), num(func(v int64) bool { return v != c })},
+		{"Gt", Gt("i", c), num(func(v int64) bool { return v > c })},
+		{"Gte", Gte("i", c), num(func(v int64) bool { return v >= c })},
+		{"Lt", Lt("i", c), num(func(v int64) bool { return v < c })},
+		{"Lte", Lte("i", c), num(func(v int64) bool { return v <= c })},
+		{"Range", Range("i", c, c2), num(func(v int64) bool { return vAnd(v >= c, v <= c2) })},
+		{"Between", Between("i", c, c2), num(func(v int64) bool { return vAnd(v >= c, v <= c2) })},
+		{"In", In("s", "a", "zz"), sIs("a", "zz")},
+		{"AnyOf", AnyOf("s", "b", "zz"), sIs("b", "zz")},
+		{"NotIn", NotIn("s", "a"), neg(sIs("a"))},
+		{"NoneOf", NoneOf("s", "b", "zz"), neg(sIs("b", "zz"))},
+		{"Exists", Exists("b"), func(d *vDoc) bool { return d.hasB }},
+		{"IsNotNull", IsNotNull("b"), func(d *vDoc) bool { return d.hasB }},
+		{"NotExists", NotExists("b"), func(d *vDoc) bool { return !d.hasB }},
+		{"IsNull", IsNull("b"), func(d *vDoc) bool { return !d.hasB }},
+		{"EqBool", Eq("b", false), func(d *vDoc) bool { return d.hasB && !d.b }},
+		{"NeStr", Ne("s", "a"), neg(sIs("a"))},
+	}
+	switch vChoose("shape", 3) {
+	case 0: // one constructor on its own
+		m := menu[vChoose("ctor", len(menu))]
+		vTag("ctor=" + m.name)
+		res, err := idx.NewSearch().WithFilters(m.f).Execute()
+		vAssert(err == nil, "search-ok")
+		vCheckIDs(res, docs, m.sem, "constructor")
+	case 1: // Where(A).And(B).Or(C).And(D).Build()  =  (A and B) or (C and D)
+		a, b := menu[[]int{3, 6, 8}[vChoose("a", 3)]], menu[[]int{4, 12}[vChoose("b", 2)]]
+		cc, d := menu[[]int{9, 11}[vChoose("c", 2)]], menu[[]int{15, 16}[vChoose("d", 2)]]
+		groups := NewMetadataFilterQuery().Where(a.f).And(b.f).Or(cc.f).And(d.f).Build()
+		vAssert(len(groups) == 2, "builder-two-groups")
+		res, err := idx.NewSearch().WithFilterGroups(groups...).Execute()
+		vAssert(err == nil, "search-ok")
+		vCheckIDs(res, docs, func(x *vDoc) bool { return vOr(vAnd(a.sem(x), b.sem(x)), vAnd(cc.sem(x), d.sem(x))) }, "builder-where-and-or-and")
+	case 2: // And on an empty builder starts the first group; Where / Or with no filters add nothing
+		a, b := menu[[]int{1, 7, 10}[vChoose("a", 3)]], menu[[]int{5, 13, 17}[vChoose("b", 3)]]
+		qb := NewMetadataFilterQuery().Where().And(a.f).Or().Or(b.f)
+		vAssert(len(qb.Build()) == 2, "builder-two-groups")
+		res, err := qb.Execute(idx)
+		vAssert(err == nil, "search-ok")
+		vCheckIDs(res, docs, func(x *vDoc) bool { return vOr(a.sem(x), b.sem(x)) }, "builder-and-first")
+	}
+	vCover("ran")
+}
